@@ -159,9 +159,24 @@ def affine(node: ast.AST, subst: Optional[Dict[str, "Affine"]] = None, strip_cal
 
 # ---------------------------------------------------------------------- tiny integer evaluator
 
-def int_eval(node: ast.AST, env: Dict[str, Any]):
+def int_eval(node: ast.AST, env: Dict[str, Any], call=None):
     """Evaluate an extracted integer/boolean expression (+,-,*,//,%,comparisons, and/or/not,
-    conditional expressions, min/max/int/len) over a concrete small-integer environment."""
+    conditional expressions, min/max/int/len) over a concrete small-integer environment.
+    `call(node, env)` (optional) interprets calls to repository helpers (see exec_int_function)."""
+    if call is not None:
+        return _IntEval(env, call).ev(node)
+    return _IntEval(env, None).ev(node)
+
+
+class _IntEval:
+    def __init__(self, env, call):
+        self.env, self.call = env, call
+
+    def ev(self, node):
+        return _int_eval(node, self.env, self)
+
+
+def _int_eval(node: ast.AST, env: Dict[str, Any], ctx):
     if isinstance(node, ast.Constant):
         return node.value
     if isinstance(node, ast.Name):
@@ -174,10 +189,10 @@ def int_eval(node: ast.AST, env: Dict[str, Any]):
             return env[d]
         raise AnalysisError(f"int_eval: unbound {d}")
     if isinstance(node, ast.UnaryOp):
-        v = int_eval(node.operand, env)
+        v = ctx.ev(node.operand)
         return -v if isinstance(node.op, ast.USub) else (not v if isinstance(node.op, ast.Not) else +v)
     if isinstance(node, ast.BinOp):
-        a, b = int_eval(node.left, env), int_eval(node.right, env)
+        a, b = ctx.ev(node.left), ctx.ev(node.right)
         op = node.op
         if isinstance(op, ast.Add):
             return a + b
@@ -196,20 +211,20 @@ def int_eval(node: ast.AST, env: Dict[str, Any]):
         if isinstance(node.op, ast.And):
             v = True
             for e in node.values:
-                v = int_eval(e, env)
+                v = ctx.ev(e)
                 if not v:
                     return v
             return v
         v = False
         for e in node.values:
-            v = int_eval(e, env)
+            v = ctx.ev(e)
             if v:
                 return v
         return v
     if isinstance(node, ast.Compare):
-        left = int_eval(node.left, env)
+        left = ctx.ev(node.left)
         for op, c in zip(node.ops, node.comparators):
-            right = int_eval(c, env)
+            right = ctx.ev(c)
             ok = {ast.Eq: left == right, ast.NotEq: left != right, ast.Lt: left < right, ast.LtE: left <= right,
                   ast.Gt: left > right, ast.GtE: left >= right}.get(type(op))
             if ok is None:
@@ -224,16 +239,27 @@ def int_eval(node: ast.AST, env: Dict[str, Any]):
             left = right
         return True
     if isinstance(node, ast.IfExp):
-        return int_eval(node.body, env) if int_eval(node.test, env) else int_eval(node.orelse, env)
+        return ctx.ev(node.body) if ctx.ev(node.test) else ctx.ev(node.orelse)
     if isinstance(node, ast.Call) and isinstance(node.func, ast.Name) and node.func.id in ("int", "min", "max", "abs", "bool"):
-        args = [int_eval(a, env) for a in node.args]
+        args = [ctx.ev(a) for a in node.args]
         return {"int": int, "min": min, "max": max, "abs": abs, "bool": bool}[node.func.id](*args)
+    if isinstance(node, ast.Call) and ctx.call is not None:
+        return ctx.call(node, env, ctx)
     raise AnalysisError(f"int_eval: unsupported {norm(node)}")
 
 
-def exec_int_function(func: ast.FunctionDef, args: Dict[str, Any], max_steps=200):
-    """Interpret a tiny pure integer function (if/return/assign only) -- used for `_n_timepoints`."""
-    env = dict(args)
+def exec_int_function(func: ast.FunctionDef, args: Dict[str, Any], max_steps=200, closure: Optional[Dict[str, Any]] = None, call=None):
+    """Interpret a tiny pure integer function (if/return/assign only) -- used for `_n_timepoints`
+    and local helper closures.  Missing arguments take the literal defaults of the signature."""
+    env = dict(closure or {})
+    pos = func.args.args
+    defaults = func.args.defaults
+    for a, d in zip(pos[len(pos) - len(defaults):], defaults):
+        try:
+            env[a.arg] = fold(d)
+        except NotConst:
+            pass
+    env.update(args)
 
     class _Ret(Exception):
         def __init__(self, v):
@@ -244,14 +270,14 @@ def exec_int_function(func: ast.FunctionDef, args: Dict[str, Any], max_steps=200
             if isinstance(st, ast.Expr) and isinstance(st.value, ast.Constant):
                 continue
             if isinstance(st, ast.Return):
-                raise _Ret(int_eval(st.value, env) if st.value is not None else None)
+                raise _Ret(int_eval(st.value, env, call) if st.value is not None else None)
             if isinstance(st, ast.If):
-                run(st.body if int_eval(st.test, env) else st.orelse)
+                run(st.body if int_eval(st.test, env, call) else st.orelse)
             elif isinstance(st, ast.Assign) and len(st.targets) == 1 and isinstance(st.targets[0], ast.Name):
-                env[st.targets[0].id] = int_eval(st.value, env)
+                env[st.targets[0].id] = int_eval(st.value, env, call)
             elif isinstance(st, ast.AugAssign) and isinstance(st.target, ast.Name):
                 cur = env[st.target.id]
-                env[st.target.id] = int_eval(ast.BinOp(left=ast.Constant(cur), op=st.op, right=st.value), env)
+                env[st.target.id] = int_eval(ast.BinOp(left=ast.Constant(cur), op=st.op, right=st.value), env, call)
             elif isinstance(st, ast.Pass):
                 continue
             else:
@@ -262,6 +288,17 @@ def exec_int_function(func: ast.FunctionDef, args: Dict[str, Any], max_steps=200
     except _Ret as r:
         return r.v
     return None
+
+
+def bind_call_args(func: ast.FunctionDef, call: ast.Call, argvals, kwvals, skip_self=True) -> Dict[str, Any]:
+    params = [a.arg for a in func.args.args]
+    if skip_self and params and params[0] in ("self", "cls"):
+        params = params[1:]
+    out = {}
+    for p, v in zip(params, argvals):
+        out[p] = v
+    out.update(kwvals)
+    return out
 
 
 # ---------------------------------------------------------------------- sympy bridge
